@@ -41,6 +41,15 @@ def _case(draw):
         spec["winds"] = [[sp, draw(st.floats(-0.6, 0.6)), draw(st.sampled_from([1e8, R / 2, R * 2]))]]
         if spec["winds"][0][2] < R:
             spec["winds"].append([draw(st.floats(5.0, 60.0)), draw(st.floats(-0.6, 0.6)), 1e8])
+    if not slow_tail and draw(st.integers(0, 6)) == 0:
+        # slow projectile on a steep sight line, far enough out for the path to flatten noticeably before the range is
+        # reached: the down-range advance of one integration step then grows along the flight (no tail wind needed)
+        spec["look"] = draw(st.floats(20.0, 62.0)) * gen.DEG
+        spec["mv"] = draw(st.floats(200.0, 800.0))
+        spec["bc"] = max(spec["bc"], 0.2)
+        R = draw(st.floats(300.0, 2500.0))
+        if draw(st.booleans()):
+            spec["winds"] = None
     kind = draw(st.sampled_from(["div", "div", "nondiv", "nondiv", "eq", "default", "small"]))
     metric_card = slow_tail and draw(st.booleans())
     if metric_card:
@@ -112,6 +121,8 @@ def check(case):
         s = (pb.PreferredUnits.distance(case["step"][0]) >> D.Foot) if case["step"][1] is None else (sq >> D.Foot)
     ts = case["time_step"]
     r.label("step:" + case["kind"], "bare-range" if case["range"][1] is None else "unit-range")
+    if spec.get("look", 0.0) >= 20 * gen.DEG and spec["mv"] <= 800.0:
+        r.label("steep-and-slow")
     if s < h * (1 - 1e-12) or s > R * (1 + 1e-12):
         r.label("out-of-domain:step")
         return r
